@@ -167,8 +167,19 @@ def go_test(pkgdir, run, overlay, env=None, timeout=600, race=False, extra=()):
            "-timeout", "%ds" % max(30, int(timeout) - 10)]
     if race:
         cmd.append("-race")
-    cmd += list(extra) + ["."]
-    return sh(cmd, cwd=os.path.join(REPO, pkgdir), env=e, timeout=timeout)
+    cwd = os.path.join(REPO, pkgdir)
+    if os.path.isdir(cwd):
+        cmd += list(extra) + ["."]
+    else:  # a package directory that exists only in the overlay: build the test binary, run it elsewhere
+        binp = os.path.join(GEN, "bin", pkgdir.replace("/", "_") + ".test")
+        os.makedirs(os.path.dirname(binp), exist_ok=True)
+        bcmd = ["go", "test", "-vet=off", "-overlay=" + overlay, "-c", "-o", binp, "./" + pkgdir]
+        rc, out, secs = sh(bcmd, cwd=REPO, env=e, timeout=timeout)
+        if rc != 0:
+            return rc, out, secs
+        rc, out2, secs2 = sh([binp, "-test.run", run, "-test.count=1", "-test.timeout", "%ds" % max(30, int(timeout) - 10)], cwd=GEN, env=e, timeout=timeout)
+        return rc, out + out2, secs + secs2
+    return sh(cmd, cwd=cwd, env=e, timeout=timeout)
 
 
 def read_jsonl(path):
